@@ -1,5 +1,61 @@
 package main
 
+import (
+	"go/ast"
+	"go/printer"
+	"strings"
+)
+
+func (f *Facts) src(n ast.Node) string {
+	var sb strings.Builder
+	printer.Fprint(&sb, f.fset, n)
+	return sb.String()
+}
+
+// hasGuardReturn reports whether the function has a top-level `if <cond> { return <results> }`
+// with cond among conds (printed form) and printed results equal to results.
+func (f *Facts) hasGuardReturn(fd *ast.FuncDecl, conds []string, results string) bool {
+	if fd == nil || fd.Body == nil {
+		return false
+	}
+	for _, st := range fd.Body.List {
+		is, ok := st.(*ast.IfStmt)
+		if !ok || is.Init != nil {
+			continue
+		}
+		c := f.src(is.Cond)
+		match := false
+		for _, want := range conds {
+			if c == want {
+				match = true
+			}
+		}
+		if !match {
+			continue
+		}
+		for _, b := range is.Body.List {
+			if rs, ok := b.(*ast.ReturnStmt); ok {
+				var parts []string
+				for _, r := range rs.Results {
+					parts = append(parts, f.src(r))
+				}
+				if strings.Join(parts, ", ") == results {
+					return true
+				}
+			}
+		}
+	}
+	return false
+}
+
+func (f *Facts) boolFact(name string, v bool) {
+	f.emit(name, "Bool", leanBool(v), v)
+}
+
 func extractAll(f *Facts) {
 	f.constInt("pkg/objects/block.go", "BlockSize", "blockSize")
+
+	// C04: findOverlappingBlocks returns the empty window for a table without blocks
+	fob := f.funcDecl("pkg/diff/iterate.go", "", "findOverlappingBlocks")
+	f.boolFact("diffEmptyGuard", f.hasGuardReturn(fob, []string{"n == 0", "len(tblIdx2) == 0"}, "0, 0"))
 }
